@@ -104,8 +104,8 @@ MIN_EVALS = {'quick': {'npts': 120000, 'dt==round4(saved)': 120000, 'values==m*r
                        'history.same-path-reload': 20000, 'long-record(>65536).reload': 40,
                        'save.leaves-arguments-unchanged': 50000, 'earlier-result-intact-after-later-call': 100000,
                        'returned-objects-share-no-memory': 90000, 'block-boundary-record(4095..65536).reload': 60,
-                       'refused-save.leaves-previous-record': 3400, 'A;B;A.third==first': 1100,
-                       'loaded-object.copy/deepcopy/pickle==loaded': 900},
+                       'refused-save.leaves-previous-record': 2600, 'A;B;A.third==first': 1200,
+                       'loaded-object.copy/deepcopy/pickle==loaded': 1000},
              'thorough': {'npts': 2200000, 'dt==round4(saved)': 2200000, 'values==m*round6(saved)': 2200000,
                           'dt.within-half-4th-decimal': 2200000, 'values.within-half-6th-decimal': 2200000,
                           'label==saved(load_label=True)': 200000, 'call-returns': 2000000,
@@ -116,8 +116,8 @@ MIN_EVALS = {'quick': {'npts': 120000, 'dt==round4(saved)': 120000, 'values==m*r
                           'long-record(>65536).reload': 150, 'save.leaves-arguments-unchanged': 1000000,
                           'earlier-result-intact-after-later-call': 1500000,
                           'returned-objects-share-no-memory': 1000000, 'block-boundary-record(4095..65536).reload': 300,
-                          'refused-save.leaves-previous-record': 30000, 'A;B;A.third==first': 10000,
-                          'loaded-object.copy/deepcopy/pickle==loaded': 8000}}
+                          'refused-save.leaves-previous-record': 29000, 'A;B;A.third==first': 12000,
+                          'loaded-object.copy/deepcopy/pickle==loaded': 11000}}
 
 CTX = None
 REG = {}        # realpath -> {'saved': op dict of the last successful save (None = unknown), 'pid': int, 'n_saves': int}
